@@ -32,6 +32,14 @@ theorem keeps_alloc (c : Cell) : Keeps (alloc c) := by
     ⦃fun s => ⌜c0 = cp s⌝⦄ heapGet a ⦃post⟨fun _ s => ⌜cp s = c0⌝, fun _ s => ⌜cp s = c0⌝⟩⦄ := (keeps_heapGet a).spec c0
 @[spec] theorem heapSet_spec (a : Addr) (c : Cell) (c0 : CP) :
     ⦃fun s => ⌜c0 = cp s⌝⦄ heapSet a c ⦃post⟨fun _ s => ⌜cp s = c0⌝, fun _ s => ⌜cp s = c0⌝⟩⦄ := (keeps_heapSet a c).spec c0
+theorem keeps_heapUpd (a : Addr) (c : Cell) : Keeps (heapUpd a c) := by
+  keeps_start; mvcgen [heapUpd, unsupported]; all_goals vm_same
+@[spec] theorem heapUpd_spec (a : Addr) (c : Cell) (c0 : CP) :
+    ⦃fun s => ⌜c0 = cp s⌝⦄ heapUpd a c ⦃post⟨fun _ s => ⌜cp s = c0⌝, fun _ s => ⌜cp s = c0⌝⟩⦄ := (keeps_heapUpd a c).spec c0
+theorem keeps_boxSet (a : Addr) (v : V) : Keeps (boxSet a v) := by
+  keeps_start; mvcgen [boxSet, unsupported]; all_goals vm_same
+@[spec] theorem boxSet_spec (a : Addr) (v : V) (c0 : CP) :
+    ⦃fun s => ⌜c0 = cp s⌝⦄ boxSet a v ⦃post⟨fun _ s => ⌜cp s = c0⌝, fun _ s => ⌜cp s = c0⌝⟩⦄ := (keeps_boxSet a v).spec c0
 /-- `alloc` keeps the control part and raises nothing -/
 @[spec] theorem alloc_spec (c : Cell) (c0 : CP) :
     ⦃fun s => ⌜c0 = cp s⌝⦄ alloc c ⦃post⟨fun _ s => ⌜cp s = c0⌝, fun _ _ => ⌜False⌝⟩⦄ := by
